@@ -1,13 +1,25 @@
 package tree
 
+import "strings"
+
 func getListEntrySortFunc(parent Entry) func(a, b Entry) int {
 	// return the comparison function
 	return func(a, b Entry) int {
 		keys := parent.GetSchemaKeys()
 		var cmpResult int
 		for _, v := range keys {
-			aLvSlice := a.getChildren()[v].GetHighestPrecedence(LeafVariantSlice{}, false)
-			bLvSlice := b.getChildren()[v].GetHighestPrecedence(LeafVariantSlice{}, false)
+			aChild, aExists := a.getChildren()[v]
+			bChild, bExists := b.getChildren()[v]
+			// the key leafs are not necessarily part of the tree (e.g. only state leafs of the
+			// entries are present), fall back to the key values the tree levels are named after
+			if !aExists || !bExists {
+				return strings.Compare(a.Path().String(), b.Path().String())
+			}
+			aLvSlice := aChild.GetHighestPrecedence(LeafVariantSlice{}, false)
+			bLvSlice := bChild.GetHighestPrecedence(LeafVariantSlice{}, false)
+			if len(aLvSlice) == 0 || len(bLvSlice) == 0 {
+				return strings.Compare(a.Path().String(), b.Path().String())
+			}
 
 			aEntry := aLvSlice[0]
 			bEntry := bLvSlice[0]
